@@ -51,44 +51,65 @@ ShowsTol(got, want, t) == IF want[5] = 0 THEN got[4] = 0
                           ELSE got[1] = want[1] /\ got[2] = want[2] /\ got[3] = want[3] /\ got[4] >= want[4] - t /\ got[4] <= want[5] + t
 
 (* ---------------- PNG ---------------- *)
-Unfilter(lines, stride) ==   \* filters 0 (None) and 2 (Up)
+\* any non-interlaced PNG with 8 or fewer bits per sample is understood: colour types 0 (grey), 2 (RGB), 3 (palette), 4 (grey + alpha),
+\* 6 (RGBA), all five filter types - the property asks for a well-formed file showing the right pixels, not for one particular encoding
+Channels(ct) == CASE ct = 0 -> 1 [] ct = 2 -> 3 [] ct = 3 -> 1 [] ct = 4 -> 2 [] ct = 6 -> 4 [] OTHER -> 0
+DepthOK(ct, depth) == CASE ct \in {0} -> depth \in {1, 2, 4, 8} [] ct = 3 -> depth \in {1, 2, 4, 8} [] ct \in {2, 4, 6} -> depth = 8 [] OTHER -> FALSE
+PngStride(d) == (d.width * d.depth * Channels(d.ctype) + 7) \div 8
+PngBpp(d) == Max2(1, (d.depth * Channels(d.ctype)) \div 8)
+AbsI(x) == IF x < 0 THEN -x ELSE x
+Paeth(a, b, c) == LET pp == a + b - c pa == AbsI(pp - a) pb == AbsI(pp - b) pc == AbsI(pp - c)
+                  IN IF pa <= pb /\ pa <= pc THEN a ELSE IF pb <= pc THEN b ELSE c
+UnfilterBpp(lines, stride, bpp) ==   \* filters 0 None, 1 Sub, 2 Up, 3 Average, 4 Paeth
   FoldLeft(LAMBDA acc, ln :
              LET prev == IF acc = <<>> THEN [i \in 1..stride |-> 0] ELSE acc[Len(acc)]
-                 cur == IF ln.ft = 0 THEN ln.data ELSE [i \in 1..stride |-> (ln.data[i] + prev[i]) % 256] \o <<>>
+                 cur == CASE ln.ft = 0 -> ln.data
+                          [] ln.ft = 2 -> [i \in 1..stride |-> (ln.data[i] + prev[i]) % 256] \o <<>>
+                          [] OTHER -> FoldLeft(LAMBDA row, i :
+                                         LET a == IF i > bpp THEN row[i - bpp] ELSE 0
+                                             b == prev[i]
+                                             c == IF i > bpp THEN prev[i - bpp] ELSE 0
+                                             pred == CASE ln.ft = 1 -> a [] ln.ft = 3 -> (a + b) \div 2 [] OTHER -> Paeth(a, b, c)
+                                         IN Append(row, (ln.data[i] + pred) % 256), <<>>, Iota(stride))
              IN Append(acc, cur), <<>>, lines)
+Unfilter(lines, stride) == UnfilterBpp(lines, stride, 1)
 Sample(line, x, depth) ==   \* x 0-based, most significant bits first
   LET bit == x * depth byte == line[(bit \div 8) + 1] sh == 8 - depth - (bit % 8)
   IN (byte \div (2^sh)) % (2^depth)
-\* RGBA of pixel (x, y) of a PNG whose un-filtered rows are given
+\* RGBA of a palette index / grey sample
 PngColour(d, idx) == LET maxs == 2^d.depth - 1 IN
                      IF d.ctype = 0 THEN LET g == (idx * 255) \div maxs IN <<g, g, g, IF d.trns_grey = idx THEN 0 ELSE 255>>
                      ELSE IF idx + 1 > Len(d.plte) THEN <<-1, -1, -1, -1>>
                      ELSE d.plte[idx+1] \o <<IF idx + 1 <= Len(d.trns) THEN d.trns[idx+1] ELSE 255>>
-PngShapeOK(d, w) == LET stride == (d.width * d.depth + 7) \div 8 IN
-                 /\ d.width = w /\ d.height = w /\ Len(d.lines) = d.height /\ d.depth \in {1, 2, 4, 8} /\ d.ctype \in {0, 3}
-                 /\ \A i \in 1..Len(d.lines) : Len(d.lines[i].data) = stride /\ d.lines[i].ft \in {0, 2}
+\* RGBA of pixel x (0-based) of an un-filtered row
+PngPixel(d, row, x) ==
+  CASE d.ctype \in {0, 3} -> PngColour(d, Sample(row, x, d.depth))
+    [] d.ctype = 2 -> <<row[3*x + 1], row[3*x + 2], row[3*x + 3], 255>>
+    [] d.ctype = 4 -> <<row[2*x + 1], row[2*x + 1], row[2*x + 1], row[2*x + 2]>>
+    [] d.ctype = 6 -> <<row[4*x + 1], row[4*x + 2], row[4*x + 3], row[4*x + 4]>>
+    [] OTHER -> <<-1, -1, -1, -1>>
+PngRows(d) == UnfilterBpp(d.lines, PngStride(d), PngBpp(d))
+PngShapeOK(d, w) == LET stride == PngStride(d) IN
+                 /\ d.width = w /\ d.height = w /\ Len(d.lines) = d.height /\ DepthOK(d.ctype, d.depth)
+                 /\ \A i \in 1..Len(d.lines) : Len(d.lines[i].data) = stride /\ d.lines[i].ft \in 0..4
                  /\ d.leftover = 0
                  /\ (d.ctype = 3 => (Len(d.plte) >= 1 /\ Len(d.plte) <= 2^d.depth /\ Len(d.trns) <= Len(d.plte)))
 PngContainerOK(d) == d.sig_ok /\ d.crc_ok /\ d.order_ok /\ d.interlace = 0 /\ d.compression = 0 /\ d.filter = 0 /\ d.trailing = 0
 \* o: [matrix, border, scale, dark, light (colour args)], d: projection of the PNG file
 PngFails(o, d) ==
   LET M == o.matrix n == Len(M) b == o.border s == o.scale w == (n + 2*b) * s
-      stride == (d.width * d.depth + 7) \div 8
-      container == d.sig_ok /\ d.crc_ok /\ d.order_ok /\ d.interlace = 0 /\ d.compression = 0 /\ d.filter = 0 /\ d.trailing = 0
-      okshape == /\ d.width = w /\ d.height = w /\ Len(d.lines) = d.height /\ d.depth \in {1, 2, 4, 8} /\ d.ctype \in {0, 3}
-                 /\ \A i \in 1..Len(d.lines) : Len(d.lines[i].data) = stride /\ d.lines[i].ft \in {0, 2}
+      stride == PngStride(d)
+      container == PngContainerOK(d)
+      okshape == /\ d.width = w /\ d.height = w /\ Len(d.lines) = d.height /\ DepthOK(d.ctype, d.depth)
+                 /\ \A i \in 1..Len(d.lines) : Len(d.lines[i].data) = stride /\ d.lines[i].ft \in 0..4
                  /\ d.leftover = 0
       okpal == d.ctype = 3 => (Len(d.plte) >= 1 /\ Len(d.plte) <= 2^d.depth /\ Len(d.trns) <= Len(d.plte))
-      rows == Unfilter(d.lines, stride)
-      maxs == 2^d.depth - 1
-      Colour(idx) == IF d.ctype = 0 THEN LET g == (idx * 255) \div maxs IN <<g, g, g, IF d.trns_grey = idx THEN 0 ELSE 255>>
-                     ELSE IF idx + 1 > Len(d.plte) THEN <<-1, -1, -1, -1>>
-                     ELSE d.plte[idx+1] \o <<IF idx + 1 <= Len(d.trns) THEN d.trns[idx+1] ELSE 255>>
+      rows == PngRows(d)
       wd == ColourOf(o.dark) wl == ColourOf(o.light)
       Want(y, x) == IF Cell(M, b, y \div s, x \div s) = 1 THEN wd ELSE wl
       badpix == IF ~(okshape /\ okpal) THEN {} ELSE
-                {y \in 0..w-1 : \E x \in 0..w-1 : ~Shows(Colour(Sample(rows[y+1], x, d.depth)), Want(y, x))}
-      padbits == okshape /\ \E y \in 1..w : (d.width * d.depth) % 8 # 0 /\ rows[y][stride] % (2^(8 - ((d.width * d.depth) % 8))) # 0
+                {y \in 0..w-1 : \E x \in 0..w-1 : ~Shows(PngPixel(d, rows[y+1], x), Want(y, x))}
+      usedbits == d.width * d.depth * Channels(d.ctype)
       dpiok == IF o.dpi < 0 THEN d.phys = <<>> ELSE d.phys # <<>> /\ d.phys[3] = 1 /\ d.phys[1] = d.phys[2]
                                                    /\ d.phys[1] * 254 >= (o.dpi - 1) * 10000 /\ d.phys[1] * 254 <= (o.dpi + 1) * 10000
   IN {c \in {"container", "dimensions", "palette", "pixels", "dpi"} :
